@@ -51,6 +51,18 @@ fn inputs_for(f: &Family, tier: Tier) -> Vec<(V, V)> {
         }
         _ => gen_expr::inputs(&f.t),
     };
+    // expressions of depth <= 1 and the truth-table programs are cheap: they
+    // get the full boundary cross product (quotients / remainders / products
+    // of every pair of boundary values, e.g. MAX / 1, 2^40 / 2)
+    if matches!(f.kind, Kind::Num { .. } | Kind::Table | Kind::Snapshot) {
+        let mut v = vec![];
+        for a in &one {
+            for b in &one {
+                v.push((a.clone(), b.clone()));
+            }
+        }
+        return v;
+    }
     let n = one.len();
     let mut v = vec![];
     let steps: &[usize] = match tier {
